@@ -16,7 +16,8 @@ Dec(r) == [tm |-> r.m.tm, idm |-> r.m.idm, pos |-> r.m.pos, leg |-> r.m.leg, cu 
 ExpKeys(mm) == LET p == Pre(mm) IN
     (IF p.tm # "absent" THEN {"time"} ELSE {}) \cup (IF p.idm # "absent" THEN {"id"} ELSE {}) \cup {"parent_id"}
     \cup (IF p.pos # "absent" THEN {"pos"} ELSE {})
-    \cup (IF p.leg = "yx" THEN {"y", "x"} ELSE IF p.leg = "x" THEN {"x"} ELSE {})
+    \cup (CASE p.leg = "yx" -> {"y", "x"} [] p.leg = "x" -> {"x"} [] p.leg \in {"zyx", "zbad", "ybad3"} -> {"z", "y", "x"}
+             [] OTHER -> {})
     \cup (IF p.cu # "absent" THEN {"custom"} ELSE {}) \cup (IF p.ax # "absent" THEN {"ellipse_axis_radii"} ELSE {})
 Report == LET r == Recs[i]
               mm == Dec(r)
